@@ -94,7 +94,10 @@ func c12Judge(r *verifkit.R, phase string, ci int, res *convResult) {
 			} else if end := c12Walk(s, x, s.ids(ar.Path)); end != y {
 				bad("lookup-agent-walk", fmt.Sprintf("agent %d: LookupAgent(%d) path %v walked over live links ends at %d", x, y, s.ids(ar.Path), end))
 			}
-			for _, k := range res.Adverts[y] {
+			for ki, k := range res.Adverts[y] {
+				if n := len(res.Adverts[y]); n > 24 && ki%(n/24+1) != 0 {
+					continue // large set: completeness is judged for every route above, the walk for a sample
+				}
 				var path []int
 				found := false
 				switch k.Kind {
@@ -219,6 +222,26 @@ func TestVerif_C12(t *testing.T) {
 		defer res.Close()
 		c12Judge(r, "builtnat", ci, res)
 	})
+	// origins whose route set needs several advertisements (> 254 routes or > byte budget)
+	r.Cases("large", r.N(40, 2500), func(ci int, rng *verifkit.Rand) {
+		class := "flood"
+		if rng.Chance(1, 4) {
+			class = "built"
+		}
+		n := rng.Range(2, 4)
+		res := convRunOpt(rng, graphs[n][rng.Intn(len(graphs[n]))], class, convOpt{Large: true})
+		defer res.Close()
+		big := 0
+		for _, a := range res.Adverts {
+			if len(a) > big {
+				big = len(a)
+			}
+		}
+		r.Add("large_origin_cases", 1)
+		r.Add("large_origin_routes", big)
+		c12Judge(r, "large", ci, res)
+	})
+	r.Require("large_origin_cases", 30)
 	r.Require("pairs_checked", 2000)
 	r.Require("multihop_paths_valid", 1000)
 	r.Require("lookups_checked", 1000)
